@@ -94,17 +94,27 @@ func (w *World) OpenTunnel(cfg TunCfg) *Tun {
 		}
 		userOpen, userClose := ho.OnReverseTunnelOpen, ho.OnReverseTunnelClose
 		ho.OnReverseTunnelOpen = func(ch grpctunnel.TunnelChannel) {
-			w.Log(Event{Actor: "env", Op: "rev-open", Detail: w.ChanName(ch)})
 			w.mu.Lock()
 			l, _ := w.Vals["revopen"].([]grpctunnel.TunnelChannel)
 			w.Vals["revopen"] = append(l, ch)
 			w.mu.Unlock()
+			w.Log(Event{Actor: "env", Op: "rev-open-cb", Detail: fmt.Sprintf("t%d", len(l))})
 			if userOpen != nil {
 				userOpen(ch)
 			}
 		}
 		ho.OnReverseTunnelClose = func(ch grpctunnel.TunnelChannel) {
 			w.Log(Event{Actor: "env", Op: "rev-close", Detail: w.ChanName(ch)})
+			idx := -1
+			w.mu.Lock()
+			lo, _ := w.Vals["revopen"].([]grpctunnel.TunnelChannel)
+			for i, c := range lo {
+				if c == ch {
+					idx = i
+				}
+			}
+			w.mu.Unlock()
+			w.Log(Event{Actor: "env", Op: "rev-close-cb", Detail: fmt.Sprintf("t%d", idx)})
 			w.mu.Lock()
 			l, _ := w.Vals["revclosed"].([]grpctunnel.TunnelChannel)
 			w.Vals["revclosed"] = append(l, ch)
